@@ -77,6 +77,16 @@ def ordering(E, x, y):
 
 
 def dispatch(E, c, args):
+    mo = re.match(r"^<(.*) as (?:std::cmp::|core::cmp::)?PartialOrd(?:<.*>)?>::(lt|le|gt|ge)$", c, re.S)
+    if mo and len(args) == 2 and E.P.resolve("<%s as PartialOrd>::partial_cmp" % mo.group(1)) is not None:
+        # the provided comparison operators of a crate type with its own partial_cmp: defined through it (None compares false)
+        r_ = E.force_arg(E.call("<%s as PartialOrd>::partial_cmp" % mo.group(1), list(args)))
+        if isinstance(r_, VEnum) and r_.ty == "Option":
+            if r_.variant == "None":
+                return VBool(z3.BoolVal(False))
+            o_ = E.force_arg(r_.fields[0])
+            if isinstance(o_, VEnum):
+                return VBool(z3.BoolVal(o_.variant in {"lt": ("Less",), "le": ("Less", "Equal"), "gt": ("Greater",), "ge": ("Greater", "Equal")}[mo.group(2)]))
     mb = re.match(r"^<&?(u8|u16|u32|u64|u128|usize) as (?:std::ops::|core::ops::)?(BitAnd|BitOr|BitXor)<&?(?:u8|u16|u32|u64|u128|usize)>>::(bitand|bitor|bitxor)$", c)
     if mb and len(args) == 2:
         a_, b_ = deref(E, args[0]), deref(E, args[1])
